@@ -14,24 +14,24 @@ package hessian
 //@   requires typMap != nil && seen != nil
 //@   assigns mapof(typMap), mapof(seen)
 //@   measure [C16:fetchtype-terminates] grows mapsize(typMap) + mapsize(seen) then shrinks T.height(typ)
-//@   let ut = R.unpackPtrType(typ)
-//@   loop 1 invariant [C16:fetch-fields] 0 <= i && mapsize(typMap) > old(mapsize(typMap)) && mapsize(seen) >= old(mapsize(seen)) && maphas(typMap, R.tName(typ)) && typ == R.unpackPtrType(entry(typ))
-//@   loop 1 invariant [C16:fetch-monotone-loop] forall k string :: old(maphas(typMap, k)) ==> maphas(typMap, k)
+//@   loop 1 invariant [C16:fetch-pointers] mapsize(typMap) == old(mapsize(typMap)) && mapsize(seen) >= old(mapsize(seen)) && (mapsize(seen) > old(mapsize(seen)) || T.height(typ) <= T.height(entry(typ))) && (R.tKind(entry(typ)) != K.Ptr ==> typ == entry(typ))
+//@   loop 1 invariant [C16:fetch-monotone-ptr] forall k string :: old(maphas(typMap, k)) ==> maphas(typMap, k)
+//@   loop 2 invariant [C16:fetch-fields] 0 <= i && mapsize(typMap) > old(mapsize(typMap)) && mapsize(seen) >= old(mapsize(seen)) && maphas(typMap, R.tName(typ)) && (R.tKind(entry(typ)) != K.Ptr ==> typ == entry(typ))
+//@   loop 2 invariant [C16:fetch-monotone-loop] forall k string :: old(maphas(typMap, k)) ==> maphas(typMap, k)
 //@   ensures [C16:fetch-grows] mapsize(typMap) >= old(mapsize(typMap)) && mapsize(seen) >= old(mapsize(seen))
 //@   ensures [C16:fetch-monotone] forall k string :: old(maphas(typMap, k)) ==> maphas(typMap, k)
-//@   ensures [C16:fetch-registers-struct] R.tKind(ut) == K.Struct ==> maphas(typMap, R.tName(ut))
+//@   ensures [C16:fetch-registers-struct] R.tKind(entry(typ)) == K.Struct && entry(typ) != _dateType ==> maphas(typMap, R.tName(entry(typ)))
 
 //@ func FetchType
 //@   requires typMap != nil
 //@   assigns mapof(typMap)
-//@   let ut = R.unpackPtrType(typ)
 //@   ensures [C16:fetch-grows] mapsize(typMap) >= old(mapsize(typMap))
 //@   ensures [C16:fetch-monotone] forall k string :: old(maphas(typMap, k)) ==> maphas(typMap, k)
-//@   ensures [C16:fetch-registers-struct] R.tKind(ut) == K.Struct ==> maphas(typMap, R.tName(ut))
+//@   ensures [C16:fetch-registers-struct] R.tKind(typ) == K.Struct && typ != _dateType ==> maphas(typMap, R.tName(typ))
 
 //@ func TypeMapOf
 //@   ensures [C16:typemap-fresh] fresh(result) && result != nil
-//@   ensures [C16:typemap-root]  R.tKind(R.unpackPtrType(typ)) == K.Struct ==> maphas(result, R.tName(R.unpackPtrType(typ)))
+//@   ensures [C16:typemap-root]  R.tKind(typ) == K.Struct && typ != _dateType ==> maphas(result, R.tName(typ))
 
 // @dyntrue: number of extractor calls that answered true so far (each registers a type name not seen
 // before, so it is bounded by the number of type names: A-META); @nrec: recursive descents at this level.
@@ -43,21 +43,26 @@ package hessian
 //@   summary @dyncalls = old(@dyncalls)
 //@   measure [C16:extractvalue-terminates] grows @dyntrue
 //@   loop 1 invariant [C16:extract-unwrap] @dyncalls == old(@dyncalls) && @dyntrue == old(@dyntrue) && @nrec == old(@nrec)
-//@   loop 2 invariant [C16:extract-elements] 0 <= i && i <= R.len(v) && @nrec == old(@nrec) + i && @dyntrue == old(@dyntrue) + 1 && @dyncalls == old(@dyncalls) + 1
-//@   loop 3 invariant [C16:extract-entries] rangeindex + 1 <= R.mapLen(v) && @nrec == old(@nrec) + 2 * (rangeindex + 1) && @dyntrue == old(@dyntrue) + 1 && @dyncalls == old(@dyncalls) + 1
-//@   loop 4 invariant [C16:extract-fields] 0 <= i && i <= R.numField(v) && @nrec == old(@nrec) + i && @dyntrue == old(@dyntrue) + 1 && @dyncalls == old(@dyncalls) + 1
+//@   loop 2 invariant [C16:extract-nil-types] @dyncalls == old(@dyncalls) && @dyntrue == old(@dyntrue) && @nrec == old(@nrec)
+//@   loop 3 invariant [C16:extract-elements] 0 <= i && i <= R.len(v) && @nrec == old(@nrec) + i && @dyntrue == old(@dyntrue) + 1 && @dyncalls == old(@dyncalls) + 1
+//@   loop 4 invariant [C16:extract-entries] rangeindex + 1 <= R.mapLen(v) && @nrec == old(@nrec) + 2 * (rangeindex + 1) && @dyntrue == old(@dyntrue) + 1 && @dyncalls == old(@dyncalls) + 1
+//@   loop 5 invariant [C16:extract-fields] 0 <= i && i <= R.numField(v) && @nrec == old(@nrec) + i && @dyntrue == old(@dyntrue) + 1 && @dyncalls == old(@dyncalls) + 1
 //@   proves  [C16:extract-one-extractor-call] @dyncalls <= old(@dyncalls) + 1
-//@   proves  [C16:extractor-reached-unless-nil-interface] @dyncalls == old(@dyncalls) ==> R.kind(now(v)) == K.Interface || R.tElem(R.typeOf(now(v))) == R.typeOf(now(v)) || R.typeOf(now(v)) == _dateType
+//@   proves  [C16:extractor-reached-unless-nil-interface] @dyncalls == old(@dyncalls) ==> R.kind(now(v)) == K.Interface || (R.kind(now(v)) == K.Ptr && len(nilTypes) >= 1) || R.typeOf(now(v)) == _dateType
 //@   proves  [C16:closure-slice-nonempty] @dyntrue == old(@dyntrue) + 1 && (R.kind(now(v)) == K.Array || R.kind(now(v)) == K.Slice) && R.len(now(v)) != 0 ==> @nrec == old(@nrec) + R.len(now(v))
 //@   proves  [C16:closure-slice-empty]    @dyntrue == old(@dyntrue) + 1 && (R.kind(now(v)) == K.Array || R.kind(now(v)) == K.Slice) && R.len(now(v)) == 0 ==> @nrec == old(@nrec) + 1
 //@   proves  [C16:closure-map-empty]      @dyntrue == old(@dyntrue) + 1 && R.kind(now(v)) == K.Map && R.len(now(v)) == 0 ==> @nrec == old(@nrec) + 2
 //@   proves  [C16:closure-map-nonempty]   @dyntrue == old(@dyntrue) + 1 && R.kind(now(v)) == K.Map && R.len(now(v)) != 0 ==> @nrec == old(@nrec) + 2 * R.mapLen(now(v))
 //@   proves  [C16:closure-struct]         @dyntrue == old(@dyntrue) + 1 && R.kind(now(v)) == K.Struct ==> @nrec == old(@nrec) + R.numField(now(v))
 
-//@ func codecNamableOf
+//@ func codecNameOf
 //@   pure
 //@   loop 1 invariant [C16:namable-fields] 0 <= i
 //@   ensures [C16:namable-total] true
+
+//@ func callCodecName
+//@   pure
+//@   ensures [C16:codec-name-call-total] true
 
 //@ func ExtractTypeNameMap$1
 //@   requires typMap != nil && nameMap != nil
